@@ -173,7 +173,14 @@ impl Future for WFut {
                 this.done = true;
                 let v = Val::new(id);
                 if this.role == 1 {
-                    w(|w| w.co.gauge -= 1);
+                    w(|w| {
+                        w.co.gauge -= 1;
+                        // C14: once an error has been returned, the futures still in flight are dropped *unfinished*
+                        if w.co.first_err_at.is_some() && FALLIBLE.with(|f| f.get()) {
+                            let pos = w.ch[id].item;
+                            w.violate(&["C14"], format!("work future for item #{pos} was driven to completion after another work future had returned Err (in-flight futures must be dropped unfinished)"));
+                        }
+                    });
                 }
                 leaf_finish(id, Res::Ok(v.id));
                 Poll::Ready(Ok(v))
@@ -187,6 +194,10 @@ impl Future for WFut {
                         w.co.gauge -= 1;
                         w.co.errs.push(vid);
                         w.st.co_errors += 1;
+                        if w.co.first_err_at.is_some() && FALLIBLE.with(|f| f.get()) {
+                            let pos = w.ch[id].item;
+                            w.violate(&["C14"], format!("work future for item #{pos} was driven to completion (Err) after another work future had already returned Err (in-flight futures must be dropped unfinished)"));
+                        }
                         if w.co.first_err_at.is_none() {
                             w.co.first_err_at = Some(w.log.len());
                             // a fallible operation breaks now: an abandoned source legitimately wakes nobody
@@ -659,6 +670,13 @@ pub fn run_fault(prop: &str, thorough: bool, case_seed: u64, sub: u64, cancel: O
     let rl = w(|w| w.root_last);
     if !cancelled && out.inconclusive.is_none() && rl == RootLast::Pending {
         w(|w| model::i6_check(w));
+        // C14: "whenever some closure (or item) future has resolved to Err, the result is an Err" — also when
+        // siblings that are still in flight never complete: a wake-only executor has nothing left to do here
+        w(|w| {
+            if fallible && w.co.first_err_at.is_some() && !w.parent_woken {
+                w.violate(&["C14"], "a work future returned Err but the operation is still Pending with no wake-up outstanding (it waits for in-flight futures instead of cancelling them)".into());
+            }
+        });
     }
     // ---- oracles on the outcome --------------------------------------------------------------------
     let completed = result.is_some();
